@@ -577,8 +577,8 @@ impl Check for C10 {
     }
     fn cases(&self, tier: Tier) -> u64 {
         match tier {
-            Tier::Quick => 100_000,
-            Tier::Thorough => 4_000_000,
+            Tier::Quick => 1_000_000,
+            Tier::Thorough => 40_000_000,
         }
     }
     fn one_case(&self, data: &[u8], ctx: &mut Ctx) -> Outcome {
